@@ -260,6 +260,31 @@ CHECKS = {
                     "message stayed bounded and the witness session kept transferring exactly."),
         level_note="The handler is called directly (in-package) the way the miekg/dns mux would call it.",
     ),
+    "C13": dict(
+        inpkg="internal/streams/dns", src=["inpkg_dnssim", "inpkg_c13"],
+        level="exploration",
+        technique="model-based stateful property testing (rapid state machine) of k concurrent DNS-tunnel sessions with spoofed and stale-identifier messages on one real server; wall-clock expiry scenarios generated up-front",
+        rule=("case = generated history on one real ServerDnsListener with an address pool of three: open(addr) (real client, real "
+              "version handshake; two clients may share an address), transfer(i,n) with session-tagged PRF payloads both ways, "
+              "closeByClient, closeByServer, closeAgain (server side closes an already closed session once more), useClosedId "
+              "(any command with a closed session's identifier from its old address), spoof (any of packet with exactly the "
+              "expected sequence number / poll / set-options incl. close and codec change / codec probe / fragment probe, carrying "
+              "a live session's identifier from a foreign address). Invariants: live identifiers pairwise distinct; every live "
+              "session keeps transferring exactly its own data after every close/spoof; spoofed and closed-identifier messages are "
+              "answered with an error, return no data packet and leave the victim's sequence numbers, codecs, fragment size and "
+              "open state untouched. Expiry: N listeners (8 quick / 60 thorough) with generated open/close/reopen plans and "
+              "lowered exported time-outs all wait for the real one-minute sweeps (1 quick / 2 thorough) while successors stay "
+              "active; successors must still transfer exactly. non-trivial = >=2 sessions and at least one spoof or close"),
+        assumptions=["the expiry sweep period is a hard-coded one-minute sleep: the quick tier waits for one real sweep (about 65 s)",
+                     "a request with a closed identifier from the same address as a live session that reuses the slot is by design that session's own"],
+        quick=dict(run=".", checks=250, steps=40, timeout=900),
+        thorough=dict(run=".", checks=2500, steps=80, timeout=3000, shards=8),
+        design_ref="DESIGN.md 2/C13",
+        level_text=("Generated multi-session histories with hostile messages against the real server-side session table, plus generated "
+                    "slot-reuse plans across real expiry sweeps. A green run means no history leaked or altered another session's "
+                    "data, accepted a spoofed or stale identifier, or terminated a live session because an earlier one closed or expired."),
+        level_note="In-package access is used to read the victim's expected sequence numbers (to craft the most dangerous spoof) and to lower exported time-outs.",
+    ),
     "C14": dict(
         pkg="c14",
         level="fault_enumeration",
